@@ -26,6 +26,8 @@ theorem c08_head_expr : ∀ (e : Expr), ∃ i r, compileExpr e = i :: r ∧ (i.o
   | .call false f as => by
     obtain ⟨i0, r, h, h1, h2⟩ := c08_head_expr f
     exact ⟨i0, r ++ compileArgs as ++ extPrefix as.length ++ [{ op := "CALL", arg := as.length }], by simp [compileExpr, h], h1, h2⟩
+  | .superAttr m c o a => ⟨{ op := "LOAD_GLOBAL", argval := "super" }, compileExpr c ++ compileExpr o
+      ++ [{ op := "LOAD_SUPER_ATTR", argval := a, arg := if m then 3 else 2 }], by simp [compileExpr], by decide, by decide⟩
 
 /-- The main theorem: every well-formed target renders to its source text. -/
 theorem C08_target (t : Tgt) (hw : WF t) (rest : List Insn) :
@@ -118,13 +120,13 @@ theorem C08_one_tuple_comma (v : String) : formatTuple [v] = "(" ++ v ++ ",)" :=
 def supported (op : String) : Bool :=
   op == "EXTENDED_ARG" || isNameOp op || isAttrOp op || op == "LOAD_CONST" || isSubscrOp op || isSliceOp op ||
   op == "UNPACK_SEQUENCE" || op == "UNPACK_EX" || isCallOp op || op == "DUP_TOP" || op == "POP_TOP" ||
-  op == "PRECALL" || op == "CACHE" || op == "PUSH_NULL"
+  op == "PRECALL" || op == "CACHE" || op == "PUSH_NULL" || op == "LOAD_SUPER_ATTR"
 
 theorem c08_step_unsupported (f : Nat) (i : Insn) (rest : List Insn) (st : List String) (h : supported i.op = false) :
     nextTarget (f + 1) (i :: rest) st = .error .value := by
   simp only [supported, Bool.or_eq_false_iff] at h
-  obtain ⟨⟨⟨⟨⟨⟨⟨⟨⟨⟨⟨⟨⟨h1, h2⟩, h3⟩, h4⟩, h5⟩, h6⟩, h7⟩, h8⟩, h9⟩, h10⟩, h11⟩, h12⟩, h13⟩, h14⟩ := h
-  simp [nextTarget, h1, h2, h3, h4, h5, h6, h7, h8, h9, h10, h11, h12, h13, h14]
+  obtain ⟨⟨⟨⟨⟨⟨⟨⟨⟨⟨⟨⟨⟨⟨h1, h2⟩, h3⟩, h4⟩, h5⟩, h6⟩, h7⟩, h8⟩, h9⟩, h10⟩, h11⟩, h12⟩, h13⟩, h14⟩, h15⟩ := h
+  simp [nextTarget, h1, h2, h3, h4, h5, h6, h7, h8, h9, h10, h11, h12, h13, h14, h15]
 
 /-- An opcode outside the supported set — right away or after any load-expression prefix — gives `None`. -/
 theorem C08_unsupported_is_none (e : Expr) (i : Insn) (rest : List Insn) (h : supported i.op = false) :
@@ -143,14 +145,28 @@ theorem C08_unsupported_is_none (e : Expr) (i : Insn) (rest : List Insn) (h : su
 theorem C08_unsupported_first (i : Insn) (rest : List Insn) (h : supported i.op = false) :
     describeTarget (i :: rest) = none := by
   simp only [supported, Bool.or_eq_false_iff] at h
-  have hp : (i.op == "POP_TOP") = false := h.1.1.1.2
+  have hp : (i.op == "POP_TOP") = false := h.1.1.1.1.2
   have hs : (i.op == "STORE_FAST") = false := by
-    have := h.1.1.1.1.1.1.1.1.1.1.1.1.2
+    have := h.1.1.1.1.1.1.1.1.1.1.1.1.1.2
     simp only [isNameOp] at this
     simp at this ⊢
     exact this.2.2.2.2.2.1
   simp only [describeTarget, hp, hs, Bool.false_eq_true, if_false]
   rw [c08_step_unsupported _ i rest [] (by simp only [supported, Bool.or_eq_false_iff]; exact h)]
+
+/-- 3.12's `LOAD_SUPER_ATTR` (the repaired F57): a target that reads an attribute of `super(c, o)` -- as an attribute, a subscript or
+a method call -- renders to its source text, like any other load expression. -/
+theorem C08_super_attr (m : Bool) (c o : Expr) (a b : String) (rest : List Insn) :
+    describeTarget (compileStore (.attr (.superAttr m c o a) b) ++ rest)
+      = some ("super(" ++ renderExpr c ++ ", " ++ renderExpr o ++ ")." ++ a ++ "." ++ b) := by
+  have := C08_target (.attr (.superAttr m c o a) b) (by simp [WF]) rest
+  simpa [renderTgt, renderExpr, String.append_assoc] using this
+
+/-- A concrete instance (subscript of a super attribute), and `LOAD_SUPER_ATTR` is in the supported set (before F57 it was not: the target was dropped and the locals fallback took over). -/
+theorem C08_super_subscr_example :
+    supported "LOAD_SUPER_ATTR" = true ∧
+    describeTarget (compileStore (.subscr (.superAttr false (.var .fast "K") (.var .fast "self") "table") (.var .fast "k")))
+      = some "super(K, self).table[k]" := by decide
 
 /-! Non-vacuity: `with cm as (a, *b.c, d[0]):` -/
 def c08Ex : Tgt := .starred (.cons (.var .fast "a") .nil) (.attr (.var .fast "b") "c") (.cons (.subscr (.var .fast "d") (.const "0")) .nil)
